@@ -24,8 +24,7 @@ MENU = ["ins:sync", "ins:raise", "wrap:try", "item:err", "item:unset", "flush:ra
         "ins:probe", "item:c", "leaf:lzok", "leaf:lzraise", "leaf:sh", "ins:res", "ins:iv", "leaf:bt"]
 CATS = ["option-changes-behaviour", "hang", "worker-died"]
 LADDER = {"quick": [(4, 0, ["call"]), (3, 1, ["call"])],
-          "thorough": [(5, 0, ["call"], {"pairs": False}), (4, 1, ["call"], {"pairs": False}), (4, 0, ["call"]), (3, 1, ["call"]),
-                       (3, 2, ["call"], {"pairs": False})]}
+          "thorough": [(5, 0, ["call"], {"pairs": False}), (4, 1, ["call"], {"pairs": False}), (3, 1, ["call"])]}
 OPTS = P.OPTION_NAMES
 CLOCK_STEPS = [1, 1000, 10 ** 6, 2 ** 31 - 1, 2 ** 31, 3600 * 10 ** 6, 86400 * 10 ** 6]
 
